@@ -383,6 +383,28 @@ theorem string_eq_ne (rnd : Rat → Rat) (ci : Bool) (s p : Bytes) (hs : s.lengt
   · simp only [implCmp, strLit, SVal.enc, SVal.toTlv, encTLV, hl, List.take_length, fopOnString]
     simp [h3, hd, hb]
 
+/-- repair c02-5: against a string literal (no wildcard) a stored NUMBER or BOOLEAN is "not equal": `=` does not
+match, `!=` does — for every value and every literal text.  The same number stored as TEXT (a block column that holds
+numbers and text is stored as text) answers the same way unless its text IS the literal (`string_eq_ne`), so that
+`t != "abc"` no longer depends on what else the block of the event holds. -/
+theorem string_literal_vs_non_string (rnd : Rat → Rat) (ci : Bool) (v : SVal) (op : Cmp.Op) (p : Bytes)
+    (hv : (∃ i, v = .int i) ∨ (∃ n, v = .uint n) ∨ (∃ b, v = .float b) ∨ (∃ b, v = .bool b)) :
+    implCmp rnd ci v.enc op (strLit p) = .ok (op == .ne) := by
+  have h1 : ¬ (NumKind.i64.tag = tBackfill) ∧ ¬ (NumKind.i64.tag = tStr) := by decide
+  have h2 : ¬ (NumKind.u64.tag = tBackfill) ∧ ¬ (NumKind.u64.tag = tStr) := by decide
+  have h3 : ¬ (NumKind.f64.tag = tBackfill) ∧ ¬ (NumKind.f64.tag = tStr) := by decide
+  have h4 : ¬ (tBool = tBackfill) ∧ ¬ (tBool = tStr) := by decide
+  rcases hv with ⟨i, rfl⟩ | ⟨n, rfl⟩ | ⟨b, rfl⟩ | ⟨b, rfl⟩ <;>
+    simp [implCmp, strLit, SVal.enc, SVal.toTlv, encTLV, h1, h2, h3, h4]
+
+/-- for the record (REPAIRED by c02-5): the number 7 satisfied neither `t = "abc"` nor `t != "abc"`, while the text
+"7" — what the very same event is stored as when its block also holds text — satisfies `t != "abc"`. -/
+theorem string_literal_vs_non_string_old_counterexample :
+    implCmpNonStringOld (fun x => x) false (SVal.int 7).enc .ne (strLit [97, 98, 99]) = .ok false ∧
+    implCmpNonStringOld (fun x => x) false (SVal.str [55]).enc .ne (strLit [97, 98, 99]) = .ok true ∧
+    implCmp (fun x => x) false (SVal.int 7).enc .ne (strLit [97, 98, 99]) = .ok true := by
+  decide
+
 end Kernel
 
 end SigModel.Props.C02
